@@ -1,7 +1,9 @@
 //! Sequential-engine extras: cache transparency (C38) and copied table root (C42).
 
-use std::collections::BTreeMap;
+use std::collections::{BTreeMap, BTreeSet};
 use std::sync::Arc;
+
+use futures::TryStreamExt;
 
 use crate::e1::{diff_rows, err_class, sorted, Runner};
 use crate::model::*;
@@ -208,6 +210,252 @@ impl Runner {
         for v in self.res.violations.iter_mut() {
             if v.oracle == "O-index-diff" && (v.sig.starts_with("index-error") || v.sig.contains("drops-rows")) && !v.sig.contains(":") {
                 v.prop = "C42".into();
+            }
+        }
+    }
+}
+
+// ---------------------------------------------------------------------------
+// C22 exact vector search, C23 full-text search
+// ---------------------------------------------------------------------------
+
+fn vec_of(v: &Val) -> Option<Vec<f64>> {
+    match v {
+        Val::L(items) => items.iter().map(|x| x.as_f64()).collect(),
+        _ => None,
+    }
+}
+
+fn dist(a: &[f64], b: &[f64], cosine: bool) -> f64 {
+    if cosine {
+        let dot: f64 = a.iter().zip(b).map(|(x, y)| x * y).sum();
+        let na: f64 = a.iter().map(|x| x * x).sum::<f64>().sqrt();
+        let nb: f64 = b.iter().map(|x| x * x).sum::<f64>().sqrt();
+        1.0 - dot / (na * nb)
+    } else {
+        a.iter().zip(b).map(|(x, y)| (x - y) * (x - y)).sum()
+    }
+}
+
+/// Independent tokenizer: lower-cased maximal runs of alphanumeric characters.
+pub fn tokenize(s: &str) -> Vec<String> {
+    let mut out = Vec::new();
+    let mut cur = String::new();
+    for c in s.chars() {
+        if c.is_alphanumeric() {
+            cur.extend(c.to_lowercase());
+        } else if !cur.is_empty() {
+            out.push(std::mem::take(&mut cur));
+        }
+    }
+    if !cur.is_empty() {
+        out.push(cur);
+    }
+    out
+}
+
+impl Runner {
+    pub async fn o_knn(&mut self, nq: usize) {
+        use arrow_array::Float32Array;
+        let vi = match self.st.col("vec") {
+            Some(i) => i,
+            None => return,
+        };
+        let dim = match self.st.cols[vi].ty {
+            Ty::Vec(d) => d as usize,
+            _ => return,
+        };
+        let idx_kind = self.st.indices.iter().find(|i| i.column == "vec").map(|i| i.kind.clone());
+        for _ in 0..nq {
+            let q: Vec<f32> = (0..dim).map(|_| (self.rng.range(-8, 8) as f32) * 0.25 + 0.125).collect();
+            let qd: Vec<f64> = q.iter().map(|x| *x as f64).collect();
+            let k = self.rng.range(1, 10) as usize;
+            // with an index the query uses the index's metric, otherwise any
+            let cosine = match idx_kind.as_deref() {
+                Some("IvfFlatCosine") => true,
+                Some(_) => false,
+                None => self.rng.chance(0.4),
+            };
+            let use_index = self.rng.chance(0.7);
+            let filter = if self.rng.chance(0.4) { Some(gen_pred(&mut self.rng, &self.st.cols.iter().filter(|c| c.name == "k" || c.name == "v").cloned().collect::<Vec<_>>(), self.gen.next_k, 0)) } else { None };
+            let mut sc = self.ds.scan();
+            if sc.nearest("vec", &Float32Array::from(q.clone()), k).is_err() {
+                continue;
+            }
+            sc.distance_metric(if cosine { lance_linalg::distance::MetricType::Cosine } else { lance_linalg::distance::MetricType::L2 });
+            sc.nprobes(64);
+            sc.use_index(use_index);
+            if let Some(p) = &filter {
+                if sc.filter(&p.sql()).is_err() {
+                    continue;
+                }
+                sc.prefilter(true);
+            }
+            let _ = sc.project(&["k", "img"]);
+            let what = format!("nearest(vec, k={}, metric={}, use_index={}, index={:?}, prefilter={:?})", k, if cosine { "cosine" } else { "l2" }, use_index, idx_kind, filter.as_ref().map(|p| p.sql()));
+            self.res.probe("knn-queries");
+            let res = async {
+                let s = sc.try_into_stream().await?;
+                let b: Vec<arrow_array::RecordBatch> = s.try_collect().await?;
+                lance_core::Result::Ok(b)
+            }
+            .await;
+            let batches = match res {
+                Ok(b) => b,
+                Err(e) => {
+                    self.res.violate("C22", "O-knn", &format!("knn-error:{}", err_class(&e.to_string())), self.step, format!("{} failed: {}", what, e));
+                    continue;
+                }
+            };
+            let names = batches.first().map(batch_col_names).unwrap_or_default();
+            let rows = batches_to_rows(&batches);
+            let (ii, di) = match (names.iter().position(|n| n == "img"), names.iter().position(|n| n == "_distance")) {
+                (Some(a), Some(b)) => (a, b),
+                _ => {
+                    if !rows.is_empty() {
+                        self.res.violate("C22", "O-knn", "knn-columns", self.step, format!("{} returned columns {:?}", what, names));
+                    }
+                    continue;
+                }
+            };
+            // brute force over the model
+            let imgi = self.st.col("img").unwrap();
+            let mut truth: Vec<(f64, i64)> = Vec::new();
+            let mut by_img: BTreeMap<i64, f64> = BTreeMap::new();
+            for r in self.st.rows.iter() {
+                if let Some(p) = &filter {
+                    if p.eval(&self.st.cols, r) != Some(true) {
+                        continue;
+                    }
+                }
+                if let Some(v) = vec_of(&r[vi]) {
+                    if cosine && v.iter().all(|x| *x == 0.0) {
+                        continue;
+                    }
+                    let d = dist(&v, &qd, cosine);
+                    truth.push((d, r[imgi].as_i64().unwrap_or(-1)));
+                    by_img.insert(r[imgi].as_i64().unwrap_or(-1), d);
+                }
+            }
+            truth.sort_by(|a, b| a.0.partial_cmp(&b.0).unwrap());
+            let tol = |d: f64| 1e-3 + d.abs() * 1e-3;
+            let mut prev = f64::NEG_INFINITY;
+            let mut bad = false;
+            for r in rows.iter() {
+                let img = r[ii].as_i64().unwrap_or(-1);
+                let d = r[di].as_f64().unwrap_or(f64::NAN);
+                match by_img.get(&img) {
+                    None => {
+                        self.res.violate("C22", "O-knn", "knn-returned-deleted-or-filtered-row", self.step, format!("{} returned image {} which is deleted, filtered out or has no vector", what, img));
+                        bad = true;
+                    }
+                    Some(t) => {
+                        if (d - t).abs() > tol(*t) {
+                            self.res.violate("C22", "O-knn", &format!("knn-distance-value:{}", if cosine { "cosine" } else { "l2" }), self.step, format!("{}: image {} reported distance {} recomputed {}", what, img, d, t));
+                            bad = true;
+                        }
+                    }
+                }
+                if d + 1e-6 < prev {
+                    self.res.violate("C22", "O-knn", "knn-not-sorted", self.step, format!("{}: distances not ascending ({} after {})", what, d, prev));
+                    bad = true;
+                }
+                prev = d;
+            }
+            if bad {
+                continue;
+            }
+            let expect_n = k.min(truth.len());
+            if rows.len() != expect_n {
+                self.res.violate("C22", "O-knn", &format!("knn-count:{}{}", if use_index && idx_kind.is_some() { "indexed" } else { "flat" }, if filter.is_some() { ":prefilter" } else { "" }), self.step, format!("{} returned {} rows, expected min(k, matches) = {}", what, rows.len(), expect_n));
+                continue;
+            }
+            if expect_n > 0 {
+                let kth_true = truth[expect_n - 1].0;
+                let kth_got = rows[expect_n - 1][di].as_f64().unwrap_or(f64::NAN);
+                if kth_got > kth_true + tol(kth_true) {
+                    self.res.violate("C22", "O-knn", &format!("knn-not-nearest:{}", if use_index && idx_kind.is_some() { "indexed" } else { "flat" }), self.step, format!("{}: k-th distance {} but the true k-th smallest is {}", what, kth_got, kth_true));
+                }
+            }
+        }
+    }
+
+    pub async fn o_fts(&mut self, nq: usize) {
+        use lance_index::scalar::inverted::query::{FtsQuery, MatchQuery, Operator, PhraseQuery};
+        use lance_index::scalar::FullTextSearchQuery;
+        let ti = match self.st.col("txt") {
+            Some(i) => i,
+            None => return,
+        };
+        // lance requires an inverted index for full-text search
+        if !self.st.indices.iter().any(|i| i.column == "txt") {
+            return;
+        }
+        let imgi = self.st.col("img").unwrap();
+        for _ in 0..nq {
+            let nterms = self.rng.range(1, 3) as usize;
+            let terms: Vec<String> = (0..nterms).map(|_| WORDS[self.rng.usize(WORDS.len())].to_string()).collect();
+            let mode = self.rng.below(3); // 0 = OR, 1 = AND, 2 = phrase
+            let qtext = terms.join(" ");
+            let query = match mode {
+                0 => FtsQuery::Match(MatchQuery::new(qtext.clone()).with_column(Some("txt".into()))),
+                1 => FtsQuery::Match(MatchQuery::new(qtext.clone()).with_column(Some("txt".into())).with_operator(Operator::And)),
+                _ => FtsQuery::Phrase(PhraseQuery::new(qtext.clone()).with_column(Some("txt".into()))),
+            };
+            let qt: Vec<String> = tokenize(&qtext);
+            let mut expect: BTreeSet<i64> = BTreeSet::new();
+            for r in self.st.rows.iter() {
+                if let Val::S(doc) = &r[ti] {
+                    let toks = tokenize(doc);
+                    let hit = match mode {
+                        0 => qt.iter().any(|t| toks.contains(t)),
+                        1 => qt.iter().all(|t| toks.contains(t)),
+                        _ => toks.windows(qt.len()).any(|w| w == qt.as_slice()),
+                    };
+                    if hit {
+                        expect.insert(r[imgi].as_i64().unwrap_or(-1));
+                    }
+                }
+            }
+            let what = format!("full_text_search({} {:?})", ["match-or", "match-and", "phrase"][mode as usize], qtext);
+            self.res.probe("fts-queries");
+            let mut sc = self.ds.scan();
+            if let Err(e) = sc.full_text_search(FullTextSearchQuery::new_query(query)) {
+                self.res.violate("C23", "O-fts", &format!("fts-plan-error:{}", err_class(&e.to_string())), self.step, format!("{}: {}", what, e));
+                continue;
+            }
+            let _ = sc.project(&["k", "img"]);
+            let res = async {
+                let s = sc.try_into_stream().await?;
+                let b: Vec<arrow_array::RecordBatch> = s.try_collect().await?;
+                lance_core::Result::Ok(b)
+            }
+            .await;
+            let batches = match res {
+                Ok(b) => b,
+                Err(e) => {
+                    self.res.violate("C23", "O-fts", &format!("fts-error:{}", err_class(&e.to_string())), self.step, format!("{} failed: {}", what, e));
+                    continue;
+                }
+            };
+            let names = batches.first().map(batch_col_names).unwrap_or_default();
+            let rows = batches_to_rows(&batches);
+            let ii = names.iter().position(|n| n == "img");
+            let si = names.iter().position(|n| n == "_score");
+            let got: BTreeSet<i64> = match ii {
+                Some(i) => rows.iter().filter_map(|r| r[i].as_i64()).collect(),
+                None => BTreeSet::new(),
+            };
+            if got != expect {
+                let unindexed = self.res.kinds.iter().rev().take_while(|k| *k != "create_fts_index").any(|k| k == "append" || k == "merge" || k == "update");
+                self.res.violate("C23", "O-fts", &format!("fts-match-set:{}{}", ["match-or", "match-and", "phrase"][mode as usize], if unindexed { ":unindexed-tail" } else { "" }), self.step, format!("{}: returned {} docs, expected {}; only-lance {:?} only-model {:?}", what, got.len(), expect.len(), got.difference(&expect).take(4).collect::<Vec<_>>(), expect.difference(&got).take(4).collect::<Vec<_>>()));
+                continue;
+            }
+            if let Some(si) = si {
+                let scores: Vec<f64> = rows.iter().filter_map(|r| r[si].as_f64()).collect();
+                if scores.windows(2).any(|w| w[1] > w[0] + 1e-6) {
+                    self.res.violate("C23", "O-fts", "fts-score-order", self.step, format!("{}: scores not non-increasing: {:?}", what, scores.iter().take(8).collect::<Vec<_>>()));
+                }
             }
         }
     }
